@@ -33,7 +33,7 @@ deriving Repr, DecidableEq
 inductive Ctl where
   | connectRequest (addr token : Nat)
   | connectDropped (addr token : Nat)
-  | shutdown (k : Key)
+  | shutdown (k : Key) (owner : Option Nat)    -- `owner`: the stream instance that is shutting down (none: untagged)
 deriving Repr
 
 inductive ConnErr where
@@ -208,7 +208,11 @@ def onControl (d : Disp) : Ctl → Disp × List Eff
       match slotPop (·.token = token) slots with
       | none => (d, [])
       | some (_, slots') => (d.setSlots addr (if slotsEmpty slots' then none else some slots'), [])
-  | .shutdown k => (d.removeKey k, [])
+  | .shutdown k owner =>
+    -- only the stream that is shutting down may remove the entry: the key may belong to a successor by now
+    match owner with
+    | none => (d.removeKey k, [])
+    | some inst => if d.instOf k = some inst then (d.removeKey k, []) else (d, [])
 
 /-- `on_maybe_connect_ack` -/
 def onMaybeConnectAck (d : Disp) (addr : Nat) (h : Header) : Disp × List Eff :=
